@@ -400,6 +400,27 @@ pub(crate) mod verif_hooks {
         token: CancellationToken,
     }
 
+    /// A clone of an actor's inbox sender, as held by other threads.
+    #[derive(Debug, Clone)]
+    pub(crate) struct VSender(mpsc::Sender<RemoteStateMessage>);
+
+    impl VSender {
+        /// Second half of `Socket::try_send_remote_state_msg`: `try_send` a `RemoteInfo` query.
+        /// `Err` says why nothing was sent.
+        pub(crate) fn try_remote_info(&self) -> Result<oneshot::Receiver<RemoteInfo>, &'static str> {
+            let (tx, rx) = oneshot::channel();
+            match self.0.try_send(RemoteStateMessage::RemoteInfo(tx)) {
+                Ok(()) => Ok(rx),
+                Err(mpsc::error::TrySendError::Full(_)) => Err("full"),
+                Err(mpsc::error::TrySendError::Closed(_)) => Err("closed"),
+            }
+        }
+
+        pub(crate) fn is_closed(&self) -> bool {
+            self.0.is_closed()
+        }
+    }
+
     impl VRemoteMap {
         pub(crate) fn new(address_lookup: address_lookup::AddressLookupServices) -> Self {
             let watchable: Watchable<BTreeSet<DirectAddr>> = Watchable::new(BTreeSet::new());
@@ -443,21 +464,10 @@ pub(crate) mod verif_hooks {
             self.map.senders().get(id).map(|s| s.is_closed())
         }
 
-        /// What other threads do (`Socket::try_send_remote_state_msg`): look the sender up in
-        /// the read-only map and `try_send`.  `Err` says why nothing was sent.
-        pub(crate) fn try_remote_info(
-            &self,
-            id: &EndpointId,
-        ) -> Result<oneshot::Receiver<RemoteInfo>, &'static str> {
-            let Some(sender) = self.map.senders().get(id) else {
-                return Err("no_sender");
-            };
-            let (tx, rx) = oneshot::channel();
-            match sender.try_send(RemoteStateMessage::RemoteInfo(tx)) {
-                Ok(()) => Ok(rx),
-                Err(mpsc::error::TrySendError::Full(_)) => Err("full"),
-                Err(mpsc::error::TrySendError::Closed(_)) => Err("closed"),
-            }
+        /// What other threads do (`Socket::try_send_remote_state_msg`), first half: look the
+        /// sender up in the read-only map.  The clone may be used after the map has moved on.
+        pub(crate) fn sender(&self, id: &EndpointId) -> Option<VSender> {
+            self.map.senders().get(id).map(VSender)
         }
 
         /// Cancels the shutdown token handed to every actor.
